@@ -374,6 +374,9 @@ class Run:
         def wrapped(node):
             me = R.me()
             R.nstarts += 1
+            for t_ in threading.enumerate():
+                if t_ not in before and not isinstance(t_, CoopThread):
+                    R.__dict__.setdefault("_untracked_seen", []).append(t_.name)
             R.ev("start", me, node)
             R.in_fn[me] = node
             R.maxinflight = max(R.maxinflight, len(R.in_fn))
@@ -422,6 +425,8 @@ class Run:
                 break
             time.sleep(0.001)
         self.leaked = [getattr(getattr(t, "t", None), "name", t.name) for t in leaked]
+        # threads the engine started behind the shim's back (not CoopThreads): the baton does not control them
+        self.untracked = [t.name for t in threading.enumerate() if t not in before and not isinstance(t, CoopThread)] + list(getattr(self, "_untracked_seen", []))
         if sc.deadlock:
             for t in sc.ts.values():
                 t.sem.release()
